@@ -149,6 +149,20 @@ class CFG:
             return False
         return target not in self.reachable([self.entry], blocked_edges=be)
 
+    def reach_assuming(self, decide: Callable[[Node], bool | None]) -> set[int]:
+        """Nodes reachable from entry when every atomic test for which ``decide`` returns True / False only takes
+        that out-edge (partial evaluation of a dispatch: robust against if/else orientation, nesting and ordering)."""
+        be: list[Edge] = []
+        for n in self.nodes:
+            if n.kind != "test":
+                continue
+            d = decide(n)
+            if d is None:
+                continue
+            drop = "false" if d else "true"
+            be += [(n.id, m, l) for m, l in self.succ[n.id] if l == drop]
+        return self.reachable([self.entry], blocked_edges=be)
+
     def stmts(self) -> Iterator[Node]:
         for n in self.nodes:
             if n.kind not in ("entry", "exit", "raise"):
@@ -190,6 +204,7 @@ class Builder:
         self.exc_targets: list[list[int]] = []  # innermost last; each a list of node ids
         self.loops: list[tuple[int, list[int]]] = []  # (head id, break sources)
         self.finals: list[Node] = []
+        self.inline_jumps: list[tuple[int, list[int]]] = []
 
     # each _stmt returns the list of "dangling" (node id, label) pairs that flow to the next stmt
     def build(self) -> CFG:
@@ -269,6 +284,24 @@ class Builder:
             pass
         if isinstance(st, (ast.FunctionDef, ast.AsyncFunctionDef, ast.ClassDef)):
             n = self._simple(st, ins)
+            return [(n.id, "")]
+        if isinstance(st, ast.If) and hasattr(st, "_xsa_inline"):
+            # body of an inlined private helper (xsa.inline): no test node; tagged jumps leave through the block end
+            first_before = len(g.nodes)
+            self.inline_jumps.append((st._xsa_inline, []))
+            outs = self._block(st.body, ins)
+            jumps = self.inline_jumps.pop()[1]
+            g._stmt_node[id(st)] = first_before if first_before < len(g.nodes) else g.entry
+            return outs + [(j, "") for j in jumps]
+        if isinstance(st, ast.Assign) and hasattr(st, "_xsa_jump"):
+            n = self._simple(st, ins)
+            g._own(n, st)
+            if self.exc_targets:
+                self._exc_to(n.id)
+            for k, coll in reversed(self.inline_jumps):
+                if k == st._xsa_jump:
+                    coll.append(n.id)
+                    return []
             return [(n.id, "")]
         if isinstance(st, ast.If):
             first_before = len(g.nodes)
